@@ -932,4 +932,218 @@ theorem subsequent_requests_accepted (H : Hashes) (hH : HexLike H) (methods : Li
   refine ⟨ch, hinit, ?_⟩
   exact serve_right_credentials H methods user pass hu { nonce := n, closed := false } hn fresh _ hver
 
+
+
+/-! ## the idealised reading: with a collision-free hash every deviation is rejected -/
+
+/-- digests contain no `:` (true of hex) -/
+def NoColonDigest (h : Bytes → Bytes) : Prop := ∀ x, ∀ c ∈ h x, c ≠ cColon
+
+/-- `digest_forgery_needs_collision` with "digests contain no colon" in place of "digests have a
+fixed length" (hex digests have both properties; an injective function can only have this one) -/
+theorem digest_forgery_needs_collision_nocolon (h : Bytes → Bytes) (hnc : NoColonDigest h)
+    (user realm nonce pass pass' m m' uri uri' : Bytes)
+    (hm : ∀ c ∈ m, c ≠ cColon) (hm' : ∀ c ∈ m', c ≠ cColon)
+    (hne : pass' ≠ pass ∨ m' ≠ m ∨ uri' ≠ uri)
+    (hacc : respWith h user realm pass' nonce m' uri' = respWith h user realm pass nonce m uri) :
+    ∃ x y, x ≠ y ∧ h x = h y := by
+  unfold respWith at hacc
+  by_cases hO :
+      h (user ++ [cColon] ++ realm ++ [cColon] ++ pass') ++ [cColon] ++ nonce ++ [cColon] ++ h (m' ++ [cColon] ++ uri')
+    = h (user ++ [cColon] ++ realm ++ [cColon] ++ pass) ++ [cColon] ++ nonce ++ [cColon] ++ h (m ++ [cColon] ++ uri)
+  · have hO' : h (user ++ [cColon] ++ realm ++ [cColon] ++ pass') ++ [cColon] ++ (nonce ++ [cColon] ++ h (m' ++ [cColon] ++ uri'))
+        = h (user ++ [cColon] ++ realm ++ [cColon] ++ pass) ++ [cColon] ++ (nonce ++ [cColon] ++ h (m ++ [cColon] ++ uri)) := by
+      simpa [List.append_assoc] using hO
+    obtain ⟨hA, hT⟩ := colon_split_inj _ _ _ _ (hnc _) (hnc _) hO'
+    have hB : h (m' ++ [cColon] ++ uri') = h (m ++ [cColon] ++ uri) := List.append_cancel_left hT
+    rcases hne with hp | hmu
+    · refine ⟨_, _, ?_, hA⟩
+      intro e
+      exact hp (List.append_cancel_left e)
+    · refine ⟨_, _, ?_, hB⟩
+      intro e
+      have := colon_split_inj m m' uri uri' hm hm' e
+      rcases hmu with h1 | h1
+      · exact h1 this.1
+      · exact h1 this.2
+  · exact ⟨_, _, hO, hacc⟩
+
+/-- **Soundness against every single-field deviation, idealised hash.**  If both digests are
+injective (no collisions at all) and hex-like, then a header the client side built for
+`(user', pass', ch.realm, ch.nonce, method', url')` is accepted for `(user, pass, realm, nonce)` on
+request `req` only if user, password, realm, nonce and method are all the expected ones and the
+URL is the request's (up to the documented spellings). -/
+theorem sound_ideal (H : Hashes) (hH : HexLike H)
+    (hnc : ∀ alg, NoColonDigest (algHash H alg))
+    (hinj : ∀ alg x y, algHash H alg x = algHash H alg y → x = y)
+    (req : Req) (user pass user' pass' : Bytes)
+    (methods : Option (List VerifyMethod)) (realm nonce : Bytes) (ch : Authenticate) (method' url' : Bytes)
+    (hch : ch.method = .digest)
+    (hq : NoQuote user' ∧ NoQuote ch.realm ∧ NoQuote ch.nonce ∧ NoQuote url')
+    (hm : ∀ c ∈ req.method, c ≠ cColon) (hm' : ∀ c ∈ method', c ≠ cColon)
+    (hreq : req.authz = addAuthorization H ch user' pass' method' url')
+    (hok : verify H req user pass methods realm nonce = .ok) :
+    user' = user ∧ pass' = pass ∧ ch.realm = realm ∧ ch.nonce = nonce ∧ method' = req.method ∧
+    urlMatches req.urlStr req.urlReq url' (req.method == b!"SETUP") = true := by
+  obtain ⟨h1, h2, h3, h4, h5⟩ := sound_digest_sender H hH req user pass user' pass' methods realm nonce ch
+    method' url' hch hq hreq hok
+  have hpm : pass' = pass ∧ method' = req.method := by
+    apply Classical.byContradiction
+    intro hn
+    have hne : pass' ≠ pass ∨ method' ≠ req.method ∨ url' ≠ url' := by
+      by_cases hp : pass' = pass
+      · right; left; intro e; exact hn ⟨hp, e⟩
+      · left; exact hp
+    obtain ⟨x, y, hxy, hc⟩ := digest_forgery_needs_collision_nocolon (algHash H ch.algorithm) (hnc _) user realm nonce
+      pass pass' req.method method' url' url' hm hm' hne h5
+    exact hxy (hinj _ x y hc)
+  exact ⟨h3, hpm.1, h1, h2, hpm.2, h4⟩
+
+/-! non-vacuity: hex encoding itself is an injective, hex-like, colon-free "digest" -/
+
+def hexDigitVal (c : UInt8) : UInt8 := if c < 58 then c - 48 else c - 87
+
+set_option maxRecDepth 8192 in
+theorem hex_byte_recover : ∀ n : Fin 256,
+    (hexDigitVal (Hex.digit ((UInt8.ofNat n.val) >>> 4)) <<< 4) ||| hexDigitVal (Hex.digit ((UInt8.ofNat n.val) &&& 15))
+      = UInt8.ofNat n.val := by decide
+
+theorem hex_byte_recover' (b : UInt8) :
+    (hexDigitVal (Hex.digit (b >>> 4)) <<< 4) ||| hexDigitVal (Hex.digit (b &&& 15)) = b := by
+  have := hex_byte_recover ⟨b.toNat, b.toNat_lt⟩
+  simpa using this
+
+theorem hex_encode_injective : ∀ x y : Bytes, Hex.encode x = Hex.encode y → x = y := by
+  intro x
+  induction x with
+  | nil =>
+    intro y h
+    cases y with
+    | nil => rfl
+    | cons b bs => simp [Hex.encode] at h
+  | cons a as ih =>
+    intro y h
+    cases y with
+    | nil => simp [Hex.encode] at h
+    | cons b bs =>
+      simp only [Hex.encode, List.cons.injEq] at h
+      obtain ⟨h1, h2, h3⟩ := h
+      have : a = b := by
+        rw [← hex_byte_recover' a, ← hex_byte_recover' b, h1, h2]
+      rw [this, ih bs h3]
+
+set_option maxRecDepth 8192 in
+theorem hex_digit_nocolon : ∀ n : Fin 256,
+    Hex.digit ((UInt8.ofNat n.val) >>> 4) ≠ 58 ∧ Hex.digit ((UInt8.ofNat n.val) &&& 15) ≠ 58 := by decide
+
+theorem hex_noColon (bs : List UInt8) : ∀ c ∈ Hex.encode bs, c ≠ cColon := by
+  induction bs with
+  | nil => intro c hc; simp [Hex.encode] at hc
+  | cons b bs ih =>
+    have h := hex_digit_nocolon ⟨b.toNat, b.toNat_lt⟩
+    simp only [UInt8.ofNat_toNat] at h
+    intro c hc
+    simp only [Hex.encode, List.mem_cons] at hc
+    rcases hc with hc | hc | hc
+    · subst hc; exact h.1
+    · subst hc; exact h.2
+    · exact ih c hc
+
+/-- an ideal pair of digests -/
+def idealHashes : Hashes := { md5 := Hex.encode, sha256 := Hex.encode }
+
+example : HexLike idealHashes ∧ (∀ alg, NoColonDigest (algHash idealHashes alg)) ∧
+    (∀ alg x y, algHash idealHashes alg x = algHash idealHashes alg y → x = y) := by
+  refine ⟨⟨fun _ => hex_noQuote _, fun _ => hex_noQuote _⟩, ?_, ?_⟩
+  · intro alg x
+    cases alg with
+    | none => exact hex_noColon x
+    | some a => cases a <;> exact hex_noColon x
+  · intro alg x y h
+    cases alg with
+    | none => exact hex_encode_injective x y h
+    | some a => cases a <;> exact hex_encode_injective x y h
+
+/-- the real digests are colon-free too (so `digest_forgery_needs_collision_nocolon` applies to them as well) -/
+theorem realHashes_noColon : ∀ alg, NoColonDigest (algHash realHashes alg) := by
+  intro alg x
+  cases alg with
+  | none => exact hex_noColon _
+  | some a => cases a <;> exact hex_noColon _
+
+
+
+/-! ## non-vacuity of the soundness hypotheses: accepted requests exist -/
+
+/-- `sound_basic_parsed`, `sound_basic`: an accepted Basic request -/
+example : verify toyHashes (toyReq [b!"Basic dTpw"]) b!"u" b!"p" (some [vmBasic]) b!"r" b!"n" = .ok ∧
+    addAuthorization toyHashes { method := .basic, realm := b!"r" } b!"u" b!"p" b!"PLAY" b!"rtsp://h/p" = [b!"Basic dTpw"] := by
+  decide
+
+/-- `sound_digest`, `sound_digest_sender`, `digest_deviation_rejected_or_collision`, `sound_url`:
+an accepted Digest request built by the client side (all hypotheses hold together) -/
+example :
+    let ch : Authenticate := { method := .digest, realm := b!"r", nonce := b!"n", algorithm := some .sha256 }
+    let req := toyReq (addAuthorization toyHashes ch b!"u" b!"p" b!"PLAY" b!"rtsp://h/p")
+    ch.method = .digest ∧ verify toyHashes req b!"u" b!"p" (some [vmSHA256]) b!"r" b!"n" = .ok ∧
+    (∀ c ∈ req.method, c ≠ cColon) := by
+  decide
+
+set_option maxRecDepth 16384 in
+/-- `sound_ideal`: the same with the injective digests -/
+example :
+    let ch : Authenticate := { method := .digest, realm := b!"r", nonce := b!"n", algorithm := none }
+    let req := toyReq (addAuthorization idealHashes ch b!"u" b!"p" b!"PLAY" b!"rtsp://h/p")
+    verify idealHashes req b!"u" b!"p" none b!"r" b!"n" = .ok := by
+  decide
+
+/-- `digest_forgery_needs_collision`: its hypotheses are satisfiable exactly by a hash with
+collisions, e.g. a constant one -/
+example : respWith (fun _ => b!"0") b!"u" b!"r" b!"wrong" b!"n" b!"PLAY" b!"x"
+    = respWith (fun _ => b!"0") b!"u" b!"r" b!"right" b!"n" b!"PLAY" b!"x" ∧ b!"wrong" ≠ b!"right" := by
+  decide
+
+/-- `no_header_rejected`: no header, two headers, an unknown scheme, broken base64 -/
+example : Authorization.unmarshal [] = none ∧ Authorization.unmarshal [b!"Basic dTpw", b!"Basic dTpw"] = none ∧
+    Authorization.unmarshal [b!"Bearer abc"] = none ∧ Authorization.unmarshal [b!"Basic dTpw="] = none := by
+  decide
+
+/-- `algorithm_relabel_rejected`: an MD5-sized response under `algorithm="SHA-256"` -/
+example :
+    let H : Hashes := { md5 := fun _ => b!"0", sha256 := fun _ => b!"11" }
+    (∀ x y, (H.md5 x).length ≠ (H.sha256 y).length) ∧
+    Authorization.unmarshal [b!"Digest username=\"u\", realm=\"r\", nonce=\"n\", uri=\"x\", response=\"0\", algorithm=\"SHA-256\""]
+      = some { method := .digest, username := b!"u", realm := b!"r", nonce := b!"n", uri := b!"x",
+               response := b!"0", algorithm := some .sha256 } := by
+  refine ⟨fun _ _ => by simp, by decide⟩
+
+/-- `serve_*`, `handshake_right`, `handshake_wrong`, `subsequent_requests_accepted`: the
+hypotheses hold for a real-looking configuration -/
+example : ValidMethods (some [vmBasic, vmMD5]) ∧ b!"admin" ≠ [] ∧
+    WF b!"admin" serverAuthRealm b!"f49ac6dd0ba708d4becddc9692d1f2ce" b!"rtsp://127.0.0.1:8554/stream?x=1" :=
+  ⟨⟨by decide, by unfold ValidMethod; decide⟩, by decide,
+   ⟨by unfold NoQuote; decide, by decide, by unfold NoQuote; decide, by unfold NoQuote; decide, by unfold NoQuote; decide⟩⟩
+
+/-- **Basic, wrong password: the connection always ends** (no assumption on any hash): the
+hypothesis `hrej` of `handshake_wrong` holds whenever only Basic is enabled and the client's
+password differs. -/
+theorem handshake_wrong_basic (H : Hashes) (hH : HexLike H) (user pass cpass n method url urlReq : Bytes)
+    (hu : user ≠ []) (hn : n ≠ []) (wf : WF user serverAuthRealm n url) (hp : cpass ≠ pass) :
+    let r : ClientReq := { method := method, urlStr := url, urlReq := urlReq, cred := some (user, cpass) }
+    let out := clientDo H (serveResp H [vmBasic] user pass (some n)) ({} : Conn) none r
+    out.1 = { nonce := n, closed := true } ∧ out.2.2.1.length = 2 ∧
+    out.2.2.2 = .resp { status := 401, www := [] } := by
+  have hm : ValidMethods (some [vmBasic]) := ⟨by decide, by unfold ValidMethod; decide⟩
+  apply handshake_wrong H hH [vmBasic] hm user pass user cpass n method url urlReq hu hu hn wf
+  intro ch hinit hok
+  have hsel := senderInit_chosen serverAuthRealm n wf.realm_noquote wf.nonce_noquote [vmBasic] hm.2 hm.1
+  have hch : ch = chosen serverAuthRealm n [vmBasic] := by
+    have : senderInit (generateWWW (some [vmBasic]) serverAuthRealm n) = some (chosen serverAuthRealm n [vmBasic]) := hsel
+    rw [this] at hinit; exact (Option.some.inj hinit).symm
+  have hb : ch.method = .basic := by
+    rw [hch]; simp [chosen, Ne.symm vm_distinct.2.1, Ne.symm vm_distinct.1, challengeFor_basic]
+  have := sound_basic H _ user pass user cpass (some [vmBasic]) serverAuthRealm n ch method url hb
+    wf.user_nocolon rfl hok
+  exact hp this.2
+
 end Rtsp.Auth
